@@ -61,6 +61,7 @@ func SpecEofIdx(lines [][]byte, i int) int {
 // one empty line (so that joining with "\n" ends the file with exactly one newline);
 // an empty list becomes two empty lines (a single "\n").
 //@ contract TestRenumberer.formatEndOfFile
+//@   rtc recv NewTestRenumberer()
 //@   tags C13
 //@   opt termination C13
 //@   results r
@@ -151,6 +152,7 @@ func SpecEofList(lines [][]byte) [][]byte {
 
 
 //@ contract TestRenumberer.processYaml
+//@   rtc recv NewTestRenumberer()
 //@   tags C13 C17
 //@   opt scan-complete C17
 //@   opt termination C13
